@@ -504,7 +504,8 @@ def check_decoder(run, c, m, key, syn, field, line, o, oracle):
         return
     if not agree:
         run.violation("prima:correspondence:%s_dec" % syn, dict(rp, what="C decoder and its model disagree (code, consumed count or value)",
-                                                                 expected=md["vs"] and "OK %d %s" % (md["n"], md["der"])), no_input=not wrong)
+                                                                 expected=md["vs"] and "OK %d %s" % (md["n"], md["der"])),
+                      no_input=o.startswith("OK %d %s ck=" % (nb, c["der"])))     # the C itself satisfies the oracle: only the model is off
         return
     if wrong:
         if not explain(run, c, syn if syn != "ber" else "der", line):
